@@ -1,7 +1,7 @@
 """C20 - end-to-end encrypted payloads are recovered exactly or rejected.
 
-M: spec/E2ee.tla - Expect(direction, keyring layout, fault) for 4 directions x 4 layouts x 4 faults (TLC: NeverAltered,
-   FaultNeverSucceeds on all 64 cells).
+M: spec/E2ee.tla - Expect(direction, keyring layout, fault) for 5 directions (incl. progressive results) x 4 layouts x 4 faults (TLC: NeverAltered,
+   FaultNeverSucceeds on all 80 cells).
 R/T: every cell x 4 payload shapes is executed with two real sessions (real PyNaCl boxes) joined by a scripted router that
    relays PUBLISH->EVENT, CALL->INVOCATION, YIELD->RESULT, ERROR->ERROR through a real serializer and injects the fault: one
    ciphertext octet altered (every octet position of nonce and body in thorough mode, sampled in quick), a receiver with a
